@@ -538,6 +538,9 @@ pub struct Resp {
     pub frames: Vec<Vec<u8>>,
     pub trailers: Option<HeaderMap>,
     pub body_error: Option<String>,
+    /// what the response body *declared* about itself (http_body::Body::size_hint / is_end_stream, asked before every
+    /// frame) disagrees with what it then delivered: a server frames a response without Content-Length from exactly these
+    pub framing_fault: Option<String>,
 }
 
 impl Resp {
@@ -679,16 +682,25 @@ impl CallOutcome {
 }
 
 pub async fn collect_response(res: s3s::HttpResponse) -> Resp {
+    use http_body::Body as _;
     use http_body_util::BodyExt;
     let (parts, mut body) = res.into_parts();
     let mut frames = Vec::new();
     let mut trailers = None;
     let mut body_error = None;
+    // (bytes delivered before the question, lower, upper, is_end_stream)
+    let mut declared: Vec<(u64, u64, Option<u64>, bool)> = Vec::new();
+    let mut delivered = 0u64;
     loop {
+        let h = body.size_hint();
+        declared.push((delivered, h.lower(), h.upper(), body.is_end_stream()));
         match body.frame().await {
             None => break,
             Some(Ok(f)) => match f.into_data() {
-                Ok(d) => frames.push(d.to_vec()),
+                Ok(d) => {
+                    delivered += d.len() as u64;
+                    frames.push(d.to_vec());
+                }
                 Err(f) => {
                     if let Ok(t) = f.into_trailers() {
                         trailers = Some(t);
@@ -701,7 +713,22 @@ pub async fn collect_response(res: s3s::HttpResponse) -> Resp {
             }
         }
     }
-    Resp { status: parts.status, headers: parts.headers, frames, trailers, body_error }
+    let mut framing_fault = None;
+    if body_error.is_none() {
+        for (i, (before, lower, upper, end)) in declared.iter().enumerate() {
+            let remaining = delivered - before;
+            let something_follows = i + 1 < declared.len();
+            if *lower > remaining || upper.is_some_and(|u| u < remaining) {
+                framing_fault = Some(format!("after {before} of {delivered} body bytes the body declared between {lower} and {upper:?} more bytes; {remaining} followed"));
+                break;
+            }
+            if *end && something_follows {
+                framing_fault = Some(format!("after {before} of {delivered} body bytes the body declared itself ended; a further frame followed"));
+                break;
+            }
+        }
+    }
+    Resp { status: parts.status, headers: parts.headers, frames, trailers, body_error, framing_fault }
 }
 
 /// One execution: the call and the complete response body, under a virtual-time watchdog.
